@@ -31,8 +31,8 @@ func (c20) Assumptions() []string {
 		"porcupine's verdict Unknown (30 s timeout per history) is reported as inconclusive",
 	}
 }
-func (c20) NumCases(tier string) int      { return tierN(tier, 3000, 200000) }
-func (c20) NumRaceCases(tier string) int  { return tierN(tier, 240, 6000) }
+func (c20) NumCases(tier string) int      { return tierN(tier, 3000, 2000000) }
+func (c20) NumRaceCases(tier string) int  { return tierN(tier, 240, 20000) }
 func (c20) MinNontrivial(tier string) int { return tierN(tier, 200, 3000) }
 
 // ---------------------------------------------------------------------------------------------
